@@ -868,7 +868,7 @@ class Exec:
                 return self.models.method(self, st, recv, e.func.attr, args, kwargs, e)
         if isinstance(e.func, ast.Name) and name in self.imports:
             name = self.imports[name]
-        h = self.models.FUNCS.get(name)
+        h = self.callees.get(name) or self.models.FUNCS.get(name)      # a unit may override a model-table entry by its dotted name
         if h is not None and self.lenient and name.split('.')[0] in ('np', 'sp', 'scipy', 'numpy'):
             args = [self.ev(a, st) for a in e.args]
             kwargs = {k.arg: self.ev(k.value, st) for k in e.keywords}
